@@ -5,7 +5,8 @@
 (*  {"ev":"Render","tree":T,"renders":[{"opts":O,"ok":b,"structs":S}]}    *)
 (* T is the verif_view of the tree (names as character sequences), S the   *)
 (* output parsed by the harness's strict template parser (ok = FALSE if a  *)
-(* line does not fit the template).                                        *)
+(* line does not fit the template).  A render may also carry "textchars",  *)
+(* the output text itself as a character sequence.                         *)
 (*                                                                         *)
 (* Every line is judged, none is rejected: for each render the set of      *)
 (* violated property clauses (RenderProps) and whether the output differs  *)
@@ -22,9 +23,13 @@ Init == l = 1
 
 SameButSort(o1, o2) == o1.derive = o2.derive /\ o1.prefix = o2.prefix /\ o1.textid = o2.textid /\ o1.sort # o2.sort
 
+\* the text itself, when the line carries it: it is exactly the layout of the records the template parser read from it
+LayoutTags(r) == IF "textchars" \in DOMAIN r /\ r.textchars # LayoutStructs(r.structs) THEN {"LAYOUT"} ELSE {}
+
 PerRender(tree, r) ==
   IF ~r.ok THEN {"TEMPLATE"}
   ELSE (IF DomC04(tree) THEN C04Tags(r.structs) ELSE {})
+       \cup LayoutTags(r)
        \cup NameTags(tree, r.opts, r.structs)
        \cup ReflectTags(tree, r.opts, r.structs)
        \cup OrderTags(tree, r.opts, r.structs)
